@@ -20,7 +20,7 @@ pub fn spec() -> HistSpec {
         history: Some(crate::gen::c02_history),
         max_len: 50,
         quick_cases: 330,
-        thorough_cases: 6000,
+        thorough_cases: 3000,
         nontrivial,
         probes: vec![(super::kf::K_LAX_INT, super::kf::probe_lax_int)],
         excluder,
